@@ -21,6 +21,7 @@ RULE = (
     "one parameter / a source that is mutated afterwards."
 )
 REQUIRED = {
+    "mon:stream.declared-type-kept": 500,
     "mon:decode.as_text==whole.decode": 200,
     "mon:stream.bytes==data[offset:]": 200,
     "mon:stream.lazy": 100,
